@@ -261,6 +261,19 @@ func (r *rec) rootWithPrefixKind(corpus []string, kind int) (string, []move.Move
 			fen = gen.BoxedKing(r.rng, r.rng.Intn(2) == 0)
 		case 5:
 			fen = gen.CastleStress(r.rng)
+		case 9:
+			// roots whose only playable move (or none at all) is one of the special kinds: the en-passant capture
+			// (either colour), the en-passant capture / double push that interposes - when such a move is lost on
+			// the way from the move store to the search (the hash move of a repeated search, a picker stage), the
+			// search has nothing left to return
+			switch r.rng.Intn(3) {
+			case 0:
+				fen = gen.EpInterpose(r.rng)
+			case 1:
+				fen = gen.DoublePushBlock(r.rng)
+			default:
+				fen = gen.EpOnlyMove(r.rng)
+			}
 		default:
 			fen = gen.RandomValid(r.rng, gen.Profile{MinPieces: 2, MaxPieces: 24, PawnBias: 45, NearKings: r.rng.Intn(2) == 0})
 		}
